@@ -102,6 +102,7 @@ func runC02Recover(c *core.Case, k int) {
 	spec := pager.RollbackSpec{Mode: mode, Outcome: "commit", NewPageN: cur + grow, Dirty: []uint32{1 + uint32(c.Rng.IntN(int(cur)))}}
 	res := w.conn.RunRollbackTx(spec)
 	w.d.Hook = nil
+	c.Count("stale_journal_headers_zapped", res.StaleHdrZaps)
 	if !res.Aborted {
 		c.Inconclusive(fmt.Sprintf("the transaction was not aborted at the finalisation step (err %v)", res.Err))
 		return
